@@ -63,7 +63,7 @@ def gen(chk, tier):
     # neighbours that must be skipped
     from ..sm2gen import limb_structured
     edge = [1, 2, 3, N - 1, N - 2, N - 3, 1 << 32, 1 << 64, 1 << 128, 1 << 192, 1 << 255, (1 << 32) - 1, (1 << 64) - 1]
-    struct = [v % N for v in limb_structured(rng, 12 if q else 200)]
+    struct = [v % N for v in limb_structured(rng, 12 if q else 1000)]
     for k in edge + [v for v in struct if v]:
         d = rng.choice([rscalar(rng), rscalar(rng), (rng.choice(struct) % (N - 2)) + 1])
         g.one("nonce_edge_accept", "sm2.sign", kind="hashed", priv=b32(d), e=rb(rng, 32),
@@ -107,7 +107,7 @@ def gen(chk, tier):
         g.one("key_" + name, "sm2.sign", kind="hashed", priv=key, e=e,
               script=sm2gen.script_of([rscalar(rng), rscalar(rng)]))
     # (4) standard vector (GM/T 0003.5 appendix A style: the repository's Test_Sign values) and random
-    for _ in range(40 if q else 3000):
+    for _ in range(40 if q else 15000):
         d = rng.choice([1, 2, N - 2, rscalar(rng), rscalar(rng)])
         ev = rng.choice([0, 1, N - 1, N, (1 << 256) - 1, rng.getrandbits(256), rng.getrandbits(256)])
         g.one("random", "sm2.sign", kind="hashed", priv=b32(d), e=b32(ev),
